@@ -3,6 +3,7 @@
 import sys, os, json
 sys.path.insert(0, os.path.join(os.path.dirname(os.path.abspath(__file__)), "..", "lib"))
 from loccheck import *
+import extract_loc
 
 FIDS = ["f1", "f2", "f3", "f4", "f5"]
 
@@ -120,7 +121,7 @@ def main():
     ck = Check("C02")
     if "--replay" in sys.argv:
         replay_main(ck, sys.argv[sys.argv.index("--replay") + 1])
-    pr = proof_part(ck, "C02")
+    pr = proof_part(ck, "C02", pre=extract_loc.regenerate)
     lr = LocRun(ck, KNOWN); lr.build()
     n = 500 if not ck.thorough else 12000
     opss = [gen_case(ck.rng, ck.thorough) for _ in range(n)]
